@@ -61,8 +61,9 @@ def table() -> dict[str, Prop]:
              not_decided="equality of results before and after the failed call (follows from the absence of writes; not separately shown)"))
     reg(Prop("C15", "the render phase's only write to a stream token is the image alt attribute, recomputed from the token's own "
              "children (idempotent); the fence renderer's scratch token owns a copy of the attrs (RWRITE); from_dict hands every "
-             "field to the constructor or assigns it back on every path, and the tree builder pairs by nesting, never by level (SERIAL)",
-             [EF.rule_rwrite, EF.rule_serial],
+             "field to the constructor or assigns it back on every path, and the tree builder pairs by nesting, never by level (SERIAL); "
+             "a node is found among its siblings by `list.index`, so node equality stays identity - no __eq__ on the node classes (IDENT)",
+             [EF.rule_rwrite, EF.rule_serial, EF.rule_ident],
              not_decided="equality of the round-tripped values themselves (as_dict / from_dict / SyntaxTreeNode are value-level "
                          "identities over runtime data; decided is only that no field is dropped structurally and that the tree builder "
                          "depends on nesting alone)"))
